@@ -22,6 +22,10 @@ def check(run):
     rexflags(run, p)
     from .c07 import agg
     agg(run, p)
+    from .common import nocache_rule
+    nocache_rule(run, 'C08-NOSHARED', p, ['tdda.constraints.db.drivers', 'tdda.constraints.db.constraints', 'tdda.constraints.baseconstraints'],
+                 'statistics and column types describe the table at hand: no memoising decorator and no class-level container used as a cache '
+                 'in the database handlers (keyed by name only, shared by every connection in the process, never invalidated)')
     run.rules['C07-AGG'] = run.rules['C07-AGG'] + ' (shared with C07: the SQL side of discovery and verification)'
     run.trust('the table name given to the API is trusted SQL (stated policy); sqlite3/DB-API execute() runs exactly the text it is given')
 
